@@ -334,17 +334,20 @@ class PlotData:
                         timescales = list(set([np.nan if isna(output_timescales[x]) else output_timescales[x] for x in labels]))  # Ensure that None and nan don't appear as different timescales
 
                         # Set default aggregation method depending on the units of the quantity
+                        # This is decided separately for each output, so that the units of one output don't affect the others
                         if output_aggregation is None:
                             if units[0] in ["", FS.QUANTITY_TYPE_FRACTION, FS.QUANTITY_TYPE_PROPORTION, FS.QUANTITY_TYPE_PROBABILITY, FS.QUANTITY_TYPE_RATE]:
-                                output_aggregation = "average"
+                                output_method = "average"
                             else:
-                                output_aggregation = "sum"
+                                output_method = "sum"
+                        else:
+                            output_method = output_aggregation
 
                         if len(units) > 1:
                             logger.warning("Aggregation for output '%s' is mixing units, this is almost certainly not desired.", output_name)
                             aggregated_units[output_name] = "unknown"
                         else:
-                            if units[0] in ["", FS.QUANTITY_TYPE_FRACTION, FS.QUANTITY_TYPE_PROPORTION, FS.QUANTITY_TYPE_PROBABILITY, FS.QUANTITY_TYPE_RATE] and output_aggregation == "sum" and len(labels) > 1:  # Dimensionless, like prevalance
+                            if units[0] in ["", FS.QUANTITY_TYPE_FRACTION, FS.QUANTITY_TYPE_PROPORTION, FS.QUANTITY_TYPE_PROBABILITY, FS.QUANTITY_TYPE_RATE] and output_method == "sum" and len(labels) > 1:  # Dimensionless, like prevalance
                                 logger.warning("Output '%s' is not in number units, so output aggregation probably should not be 'sum'.", output_name)
                             aggregated_units[output_name] = output_units[labels[0]]
 
@@ -354,12 +357,12 @@ class PlotData:
                         else:
                             aggregated_timescales[output_name] = output_timescales[labels[0]]
 
-                        if output_aggregation == "sum":
+                        if output_method == "sum":
                             aggregated_outputs[pop_label][output_name] = sum(data_dict[x] for x in labels)  # Add together all the outputs
-                        elif output_aggregation == "average":
+                        elif output_method == "average":
                             aggregated_outputs[pop_label][output_name] = sum(data_dict[x] for x in labels)  # Add together all the outputs
                             aggregated_outputs[pop_label][output_name] /= len(labels)
-                        elif output_aggregation == "weighted":
+                        elif output_method == "weighted":
                             aggregated_outputs[pop_label][output_name] = sum(data_dict[x] * compsize[x] for x in labels)  # Add together all the outputs
                             aggregated_outputs[pop_label][output_name] /= sum([compsize[x] for x in labels])
                     else:
@@ -375,21 +378,24 @@ class PlotData:
                         pop_name = list(pop.keys())[0]
                         pop_labels = pop[pop_name]
 
-                        # Set population aggregation method depending on
+                        # Set population aggregation method depending on the units of the quantity
+                        # This is decided separately for each output, so that the units of one output don't affect the others
                         if pop_aggregation is None:
                             if aggregated_units[output_name] in ["", FS.QUANTITY_TYPE_FRACTION, FS.QUANTITY_TYPE_PROPORTION, FS.QUANTITY_TYPE_PROBABILITY, FS.QUANTITY_TYPE_RATE]:
-                                pop_aggregation = "average"
+                                pop_method = "average"
                             else:
-                                pop_aggregation = "sum"
+                                pop_method = "sum"
+                        else:
+                            pop_method = pop_aggregation
 
-                        if pop_aggregation == "sum":
+                        if pop_method == "sum":
                             if aggregated_units[output_name] in ["", FS.QUANTITY_TYPE_FRACTION, FS.QUANTITY_TYPE_PROPORTION, FS.QUANTITY_TYPE_PROBABILITY, FS.QUANTITY_TYPE_RATE] and len(pop_labels) > 1:
                                 logger.warning("Output '%s' is not in number units, so population aggregation probably should not be 'sum'", output_name)
                             vals = sum(aggregated_outputs[x][output_name] for x in pop_labels)  # Add together all the outputs
-                        elif pop_aggregation == "average":
+                        elif pop_method == "average":
                             vals = sum(aggregated_outputs[x][output_name] for x in pop_labels)  # Add together all the outputs
                             vals /= len(pop_labels)
-                        elif pop_aggregation == "weighted":
+                        elif pop_method == "weighted":
                             numerator = sum(aggregated_outputs[x][output_name] * popsize[x] for x in pop_labels)  # Add together all the outputs
                             denominator = sum([popsize[x] for x in pop_labels])
                             vals = np.divide(numerator, denominator, out=np.full(numerator.shape, np.nan, dtype=float), where=numerator != 0)
